@@ -112,6 +112,10 @@ func (v *authorizer) AddPolicy(policy Policy) {
 }
 
 func (v *authorizer) Authorize() error {
+	// from here on the world holds token content and derived facts, whether
+	// or not evaluation completes: it must not be serialized as policies
+	v.dirty = true
+
 	// if we load facts from the verifier before
 	// the token's fact and rules, we might get inconsistent symbols
 	// token ements should first be converted to builder elements
@@ -136,7 +140,6 @@ func (v *authorizer) Authorize() error {
 	if err := v.world.Run(v.symbols); err != nil {
 		return err
 	}
-	v.dirty = true
 
 	var errs []error
 
